@@ -146,6 +146,14 @@ def check_eq(case, ctx):
         return
     dv, desc = v
     b = build.make(dv)
+    if case["change"] == "weight" and case["idx"] % 2:
+        # the same change made on a deep copy through the read / edit in place / write back idiom
+        b = copy.deepcopy(a)
+        w = b.weights
+        for j, x in enumerate(dv["W"]):
+            w[j] = x
+        b.weights = w
+        desc += " (edited in place on a deep copy)"
     ab, ba = (a == b), (b == a)
     ctx.check(ab == ba, "not-symmetric", "a == b is %r but b == a is %r (%s)" % (ab, ba, desc))
     ctx.check((a != b) == (not ab) and (b != a) == (not ba), "ne-not-negation", "!= is not the negation of == (%s)" % desc)
